@@ -174,8 +174,72 @@ func vImageSegments(fs *vos.MemFS, tmpl string) (ids []int, files map[int]map[st
 // operation it then explores a SECOND crash: the recovered store adds a document and
 // flushes, and the process dies again at every operation boundary (and in the middle of
 // every write) of that flush - directories with two incomplete segments.
+// vCrashCheckSessions: after the crash the directory lives on through SEVERAL sessions
+// before anything is written again: session 1 opens, is searched with every probe and
+// closes (a read-only restart); session 2 opens, adds a document and flushes. The
+// identifier of that flush lies above every identifier that occurs in the crash image,
+// and the documents made durable before the crash are found in both sessions.
+func vCrashCheckSessions(c *vCtx, cfg vCrashCfg, h *vCrashHistory, p vCrashPoint) {
+	cfgS := cfg.String()
+	hist := []string{fmt.Sprintf("crash after %d of %d file-system operations of the in-flight %s, %d bytes of the next write", p.ops, len(h.log), cfg.InFlight, p.torn),
+		"session 1: open; every probe; Close; session 2: open; AddWithID 51; Rotate; Flush"}
+	img := h.image(p)
+	maxBefore := vMaxSegID(img)
+	scfg := vStoreCfg{Mem: 2, Thr: 1, Comp: 5, Tmpl: cfg.Tmpl, Vec: "flat"}
+	env := vStoreBegin(nil, img)
+	defer env.end()
+	c.Evaluations++
+	c.Traces++
+	c.Extra["read_only_restart_images"]++
+	for sess := 1; sess <= 2; sess++ {
+		st, err := env.open(scfg.config())
+		if env.dead != "" || err != nil {
+			c.Violation("reopen-failed", fmt.Sprintf("session-%d", sess), cfgS, hist, fmt.Sprint(err, env.dead))
+			return
+		}
+		for _, q := range vStoreQueries(cfg.Tmpl) {
+			var serr error
+			env.do(func() { _, serr = vStoreSearch(st, q) })
+			if env.dead != "" {
+				c.Violation("search-aborted", fmt.Sprintf("session-%d:", sess)+vDeadCause(env.dead), cfgS, hist, env.dead)
+				return
+			}
+			if serr != nil {
+				c.Violation("search-error-after-crash", fmt.Sprintf("session-%d", sess), cfgS, hist, fmt.Sprintf("query %d: %v", q, serr))
+			}
+		}
+		if sess == 2 {
+			before := len(env.fs.Log)
+			env.do(func() {
+				st.AddWithID(51, []float32{2, 2}, "delta", map[string]interface{}{"s": "y"})
+				st.memtableQueue.Rotate()
+				st.Flush()
+			})
+			if env.dead != "" {
+				c.Violation("flush-after-crash-aborted", "session-2:"+vDeadCause(env.dead), cfgS, hist, env.dead)
+				return
+			}
+			for _, op := range env.fs.Log[before:] {
+				if m := vSegRe.FindStringSubmatch(op.Path); m != nil && op.Kind == "create" {
+					if n, _ := strconv.Atoi(m[1]); n <= maxBefore {
+						c.Violation("segment-identifier-reused-after-crash", "after-a-read-only-session", cfgS, hist, fmt.Sprintf("the flush of session 2 created %s although identifiers up to %d occur in the crash image", op.Path, maxBefore))
+					}
+				}
+			}
+		}
+		env.do(func() { st.Close() })
+		if env.dead != "" {
+			c.Violation("close-after-recovery-aborted", fmt.Sprintf("session-%d:", sess)+vDeadCause(env.dead), cfgS, hist, env.dead)
+			return
+		}
+	}
+}
+
 func vCrashCheck(c *vCtx, cfg vCrashCfg, h *vCrashHistory, p vCrashPoint, prop string) {
 	sec := vCrashCheck1(c, cfg, h, p, prop)
+	if p.torn < 0 || (p.ops < len(h.log) && p.torn == len(h.log[p.ops].Data)/2) {
+		vCrashCheckSessions(c, cfg, h, p)
+	}
 	if sec == nil {
 		return
 	}
